@@ -45,6 +45,7 @@ Proof.
   rewrite Hs in Hin. rewrite (proj2 (approved_counterb_spec u _ k)) in Hin by eauto. cbn [orb negb] in Hin.
   destruct (existsb (N.leb x) (counter_rates u (id_program i) k)) eqn:Ee; [destruct Hin|].
   assert (Hlt : (r < x)%N) by (eapply existsb_leb_false; [exact Ee | apply in_counter_rates; exact Hr]).
+  rewrite (proj2 (N.leb_le _ _) Hx), andb_true_r in Hin.
   destruct (nonempty (stack_rates u (id_program i) k)) eqn:En.
   - destruct Hin as [<-|[]]. left. split; [reflexivity|].
     exists (id_program i), k, r, (rate (new_config u) (id_program i) k).
@@ -64,6 +65,7 @@ Proof.
   rewrite Hs in Hin. rewrite (proj2 (approved_stackb_spec u _ k)) in Hin by eauto. cbn [orb negb] in Hin.
   destruct (existsb (N.leb x) (stack_rates u (id_program i) (stack_title k))) eqn:Ee; [destruct Hin|].
   assert (Hlt : (r < x)%N) by (eapply existsb_leb_false; [exact Ee | apply in_stack_rates; exact Hr]).
+  rewrite (proj2 (N.leb_le _ _) Hx), andb_true_r in Hin.
   destruct (nonempty (counter_rates u (id_program i) (stack_title k))) eqn:En.
   - destruct Hin as [<-|[]]. left. split; [reflexivity|].
     exists (id_program i), (stack_title k), r, (rate (new_config u) (id_program i) (stack_title k)).
@@ -143,6 +145,7 @@ Section Model.
         apply (aget_None_notin _ _ beq beq_eq) in Ea. contradiction. }
       rewrite forallb_forall in Hr.
       assert (Hrx : (x <= r)%N) by (apply N.leb_le, Hr, in_stack_rates; exact Hr0).
+      rewrite (proj2 (N.leb_gt _ _) (proj1 (N.nle_gt _ _) Hnx)) in Hfl. cbn [negb] in Hfl. rewrite andb_true_r in Hfl.
       destruct (nonempty (counter_rates u (id_program (f_ident f)) (stack_title k))) eqn:En.
       + destruct Hfl as [<-|[]]. left. split; [reflexivity|].
         exists (id_program (f_ident f)), (stack_title k), r, (rate (new_config u) (id_program (f_ident f)) (stack_title k)).
@@ -161,6 +164,7 @@ Section Model.
         apply (aget_None_notin _ _ beq beq_eq) in Ea. contradiction. }
       rewrite forallb_forall in Hr.
       assert (Hrx : (x <= r)%N) by (apply N.leb_le, Hr, in_counter_rates; exact Hr0).
+      rewrite (proj2 (N.leb_gt _ _) (proj1 (N.nle_gt _ _) Hnx)) in Hfl. cbn [negb] in Hfl. rewrite andb_true_r in Hfl.
       destruct (nonempty (stack_rates u (id_program (f_ident f)) k)) eqn:En.
       + destruct Hfl as [<-|[]]. left. split; [reflexivity|].
         exists (id_program (f_ident f)), k, r, (rate (new_config u) (id_program (f_ident f)) k).
